@@ -1,6 +1,7 @@
 import Props.C07
 #print axioms C07.allowed_table
 #print axioms C07.validateOpen_eq_rfc
+#print axioms C07.bad_identifier_uses_real_as
 #print axioms C07.edges_allowed
 #print axioms C07.established_needs_open_keepalive
 #print axioms C07.established_entered_by_keepalive
